@@ -46,7 +46,9 @@ func RunC09P(s *simrt.Sim, a *harness.Args, r *harness.Result) {
 	s.MaxSteps = 40000
 	where := []string{"global", "source", "destination"}[s.T.Choose(st, 3)]
 	rewrite := map[string][]string{}
-	clientRcpts := []string{"list@a.example", "u2@a.example", "alias@a.example"}
+	clientRcpts := []string{"list@a.example", "u2@a.example", "alias@a.example", "v1@b.example", "v2@b.example"}
+	// recipients at b.example go to a second target (its own kind and plan)
+	two := s.T.Choose(st, 2) == 1
 	rewrite["list@a.example"] = []string{"m1@a.example", "m2@a.example", "m3@a.example"}[:1+s.T.Choose(st, 3)]
 	if s.T.Choose(st, 2) == 1 {
 		rewrite["alias@a.example"] = []string{"real@a.example"}
@@ -69,16 +71,32 @@ func RunC09P(s *simrt.Sim, a *harness.Args, r *harness.Result) {
 	tgt.PlanFor = func(*actors.TxRecord) *actors.StagePlan { return plan }
 	module.RegisterInstance(tgt, nil)
 	delete(module.Initialized, "t1")
+	tgt2 := &actors.ScriptedTarget{Label: "t2", Partial: s.T.Choose(st, 2) == 1, Prop: ""}
+	plan2 := &actors.StagePlan{Rcpt: map[string]actors.Outcome{}, Status: map[string]actors.Outcome{}, Var: s.T.Choose("plan", 48)}
+	for _, x := range []string{"v1@b.example", "v2@b.example"} {
+		if s.T.Bool("plan", 1, 4) {
+			plan2.Status[x] = actors.Outcome(1 + s.T.Choose("plan", 2))
+		}
+	}
+	if s.T.Bool("plan", 1, 4) {
+		plan2.Body = actors.Outcome(1 + s.T.Choose("plan", 2))
+	}
+	tgt2.PlanFor = func(*actors.TxRecord) *actors.StagePlan { return plan2 }
+	module.RegisterInstance(tgt2, nil)
+	delete(module.Initialized, "t2")
 	modBlock := block("modify", nil, node("&rw"))
 	deliver := node("deliver_to", "&t1")
+	destA := block("destination", []string{"a.example"}, deliver)
+	destB := block("destination", []string{"b.example"}, node("deliver_to", "&t2"))
+	rej := block("default_destination", nil, node("reject"))
 	var cfg []config.Node
 	switch where {
 	case "global":
-		cfg = []config.Node{modBlock, deliver}
+		cfg = []config.Node{modBlock, destA, destB, rej}
 	case "source":
-		cfg = []config.Node{block("default_source", nil, modBlock, deliver)}
+		cfg = []config.Node{block("default_source", nil, modBlock, destA, destB, rej)}
 	default:
-		cfg = []config.Node{block("destination", []string{"a.example"}, modBlock, deliver), block("default_destination", nil, node("reject"))}
+		cfg = []config.Node{block("destination", []string{"a.example"}, modBlock, deliver), destB, rej}
 	}
 	var pipe *msgpipeline.MsgPipeline
 	var berr error
@@ -94,7 +112,10 @@ func RunC09P(s *simrt.Sim, a *harness.Args, r *harness.Result) {
 	pipe.Hostname = "mx.sim.example"
 	pipe.Log = log.Logger{Out: log.NopOutput{}}
 	n := 1 + s.T.Choose(st, 3)
-	rcpts := clientRcpts[:n]
+	rcpts := append([]string{}, clientRcpts[:n]...)
+	if two {
+		rcpts = append(rcpts, clientRcpts[3:3+1+s.T.Choose(st, 2)]...)
+	}
 	kl := &keyLog{keys: map[string][]error{}}
 	accepted := map[string]bool{}
 	done := false
@@ -136,37 +157,98 @@ func RunC09P(s *simrt.Sim, a *harness.Args, r *harness.Result) {
 			s.Violate("C09/pipeline-status-rewritten-address/"+where, "the pipeline reported a result for %q, which the client never supplied (client recipients %v, rewrites %v)", k, rcpts, rewrite)
 		}
 	}
-	if tx := tgt.Records(); len(tx) > 0 && tx[0].BodyCall {
-		for _, rc := range rcpts {
-			if !accepted[rc] {
-				continue
+	for _, rc := range rcpts {
+		if !accepted[rc] {
+			continue
+		}
+		own := tgt
+		if strings.HasSuffix(rc, "@b.example") {
+			own = tgt2
+		}
+		txs := own.Records()
+		if len(txs) == 0 || !txs[0].BodyCall {
+			continue
+		}
+		tx := txs[0]
+		exp := rewrite[rc]
+		if exp == nil {
+			exp = []string{rc}
+		}
+		failed := false
+		for _, e := range exp {
+			if tx.Partial && tx.Statuses[e] != actors.OK {
+				failed = true
 			}
-			exp := rewrite[rc]
-			if exp == nil {
-				exp = []string{rc}
+			if !tx.Partial && tx.BodyRes != actors.OK {
+				failed = true
 			}
-			failed := false
-			for _, e := range exp {
-				if tx[0].Partial && tx[0].Statuses[e] != actors.OK {
-					failed = true
-				}
-				if !tx[0].Partial && tx[0].BodyRes != actors.OK {
-					failed = true
-				}
+		}
+		gotFail := false
+		for _, e := range kl.keys[rc] {
+			if e != nil {
+				gotFail = true
 			}
-			gotFail := false
-			for _, e := range kl.keys[rc] {
-				if e != nil {
-					gotFail = true
-				}
+		}
+		if failed && !gotFail {
+			s.Violate("C09/pipeline-status-missing/"+where, "client recipient %q expands to %v of which target %s failed some, yet no failure was reported under %q (reported keys %v)", rc, exp, own.Label, rc, keys)
+		}
+	}
+	// recipients that are not rewritten 1 -> N get exactly one result, and it
+	// is the result of their own target
+	recOf := func(t *actors.ScriptedTarget) *actors.TxRecord {
+		if tx := t.Records(); len(tx) > 0 {
+			return tx[0]
+		}
+		return nil
+	}
+	bodyStage := false
+	for _, t := range []*actors.ScriptedTarget{tgt, tgt2} {
+		if tx := recOf(t); tx != nil && tx.BodyCall {
+			bodyStage = true
+		}
+	}
+	for _, rc := range rcpts {
+		if !accepted[rc] || !bodyStage || len(rewrite[rc]) > 1 {
+			continue
+		}
+		res := kl.keys[rc]
+		// (a success may go unreported: the collector contract makes SetStatus
+		// optional for delivered recipients, but it "should not be called
+		// multiple times for the same value")
+		if len(res) > 1 {
+			s.Violate("C09/pipeline-status-count/"+where, "client recipient %q (no 1-to-N rewrite) got %d results %v, want at most one", rc, len(res), res)
+			continue
+		}
+		if len(res) == 0 {
+			continue
+		}
+		own, eff := tgt, rc
+		if strings.HasSuffix(rc, "@b.example") {
+			own = tgt2
+		}
+		if len(rewrite[rc]) == 1 {
+			eff = rewrite[rc][0]
+		}
+		tx := recOf(own)
+		if tx == nil || !tx.BodyCall {
+			continue
+		}
+		ownFailed := (tx.Partial && tx.Statuses[eff] != actors.OK) || (!tx.Partial && tx.BodyRes != actors.OK)
+		if !ownFailed && res[0] != nil {
+			// (a failure elsewhere may legitimately abort the whole message
+			// only if no target is told to commit; that is C03's concern. Here:
+			// the result of a recipient reflects its own target.)
+			other := tgt2
+			if own == tgt2 {
+				other = tgt
 			}
-			if failed && !gotFail {
-				s.Violate("C09/pipeline-status-missing/"+where, "client recipient %q expands to %v of which the target failed some, yet no failure was reported under %q (reported keys %v)", rc, exp, rc, keys)
+			if otx := recOf(other); otx != nil && otx.BodyCall {
+				s.Violate("C09/pipeline-status-foreign-failure/"+where, "client recipient %q was delivered by its own target %s, yet the pipeline reported %v for it (the failure belongs to target %s)", rc, own.Label, res[0], other.Label)
 			}
 		}
 	}
 	s.Stat("pipeline_status_runs")
-	r.Shape = fmt.Sprintf("where=%s rw=%v n=%d partial=%v st=%v", where, rewrite, n, tgt.Partial, plan.Status)
+	r.Shape = fmt.Sprintf("where=%s rw=%v rcpts=%v partial=%v/%v st=%v/%v body=%v/%v", where, rewrite, rcpts, tgt.Partial, tgt2.Partial, plan.Status, plan2.Status, plan.Body, plan2.Body)
 	r.Nontrivial = len(kl.keys) > 0
 	r.Sample = map[string]interface{}{"scenario": r.Shape, "reported_keys": strings.Join(keys, ",")}
 }
